@@ -88,6 +88,7 @@ type Step struct {
 	Op     int
 	Obj    int
 	Label  string
+	Arg    int // map operations: id of the key (verifshim.KeyID)
 }
 
 func (s Step) String() string {
@@ -403,7 +404,7 @@ func RunAfter(prev *Exec, x *mc.Exec, horizon int, keepLog bool, bodies ...func(
 			if o := e.obj(t.pending.obj); o != nil {
 				id = o.id
 			}
-			e.Log = append(e.Log, Step{Thread: t.ID, Op: t.pending.kind, Obj: id, Label: t.pending.label})
+			e.Log = append(e.Log, Step{Thread: t.ID, Op: t.pending.kind, Obj: id, Label: t.pending.label, Arg: t.pending.arg})
 		}
 		e.cur = t
 		e.giveTurn(t)
